@@ -106,6 +106,7 @@ func (e *c05kEnv) begin(tr *Trace) *c05kSeq {
 	q := &c05kSeq{e: e, tr: tr, ctx: ctx, height: 2, now: c05kT0 + 5}
 	q.ctx = q.ctx.WithBlockHeight(q.height).WithBlockTime(time.Unix(q.now, 0).UTC())
 	tr.Line("amm.k.begin", strconv.Itoa(e.prec))
+	q.params()
 	return q
 }
 
@@ -234,6 +235,27 @@ func TestC05Keeper(t *testing.T) {
 		q.endBlock()
 	}
 
+	// ---- corpus: market orders (limit = last price ± 10 % on the grid) and MM ladders, re-placed (previous ones canceled) ------
+	{
+		q := e.begin(tr)
+		q.placeMarket(1, true, sdkmath.NewInt(1000), 0) // no last price yet: rejected
+		q.place(1, true, dec("1.0"), sdkmath.NewInt(100), 0)
+		q.place(2, false, dec("1.0"), sdkmath.NewInt(100), 0)
+		q.endBlock() // last price 1.0
+		q.placeMarket(3, true, sdkmath.NewInt(1000), hour)  // stored with limit 1.1
+		q.placeMarket(4, false, sdkmath.NewInt(700), hour)  // stored with limit 0.9: both cross, trade at 1.0
+		q.placeMM(1, c05kLadder(e.prec, amm.TickToIndex(dec("1.0"), e.prec), 300, true, sdkmath.NewInt(100000)),
+			c05kLadder(e.prec, amm.TickToIndex(dec("1.0"), e.prec), 300, false, sdkmath.NewInt(100003)), hour)
+		q.placeMM(1, nil, c05kLadder(e.prec, amm.TickToIndex(dec("1.0"), e.prec), 5, false, sdkmath.NewInt(5000)), hour) // same batch: rejected
+		q.endBlock()
+		q.place(5, true, dec("1.02"), sdkmath.NewInt(30000), 0) // eats into the MM sell ladder
+		q.endBlock()
+		q.placeMM(1, c05kLadder(e.prec, amm.TickToIndex(dec("1.01"), e.prec), 1, true, sdkmath.NewInt(999)), nil, hour) // cancels the first ladder
+		q.placeMarket(2, false, sdkmath.NewInt(50000), 0)
+		q.endBlock()
+		q.endBlock()
+	}
+
 	seqs := scale(2500, 30000)
 	for s := 0; s < seqs; s++ {
 		q := e.begin(tr)
@@ -305,6 +327,24 @@ func TestC05Keeper(t *testing.T) {
 					l = hour
 				}
 				q.place(1+rng.Intn(5), buy, tick(d), amount(), l)
+			}
+			if rng.Chance(30) {
+				q.placeMarket(1+rng.Intn(5), rng.Chance(50), amount(), life())
+			}
+			if rng.Chance(25) {
+				var bs, ss *c05kSide
+				w := []int{1, 5, 30, 200}[rng.Intn(4)]
+				c := center + rng.Intn(21) - 10
+				if rng.Chance(70) {
+					bs = c05kLadder(e.prec, c, w, true, amount())
+				}
+				if bs == nil || rng.Chance(70) {
+					ss = c05kLadder(e.prec, c, w, false, amount())
+				}
+				q.placeMM(1+rng.Intn(3), bs, ss, life())
+				if rng.Chance(10) { // a second MM order of the same orderer in the same batch: ErrSameBatch
+					q.placeMM(1+rng.Intn(3), bs, ss, life())
+				}
 			}
 			q.endBlock()
 		}
